@@ -28,8 +28,11 @@ type c11Thread struct {
 	Def  string `json:",omitempty"`
 }
 
+var c11ShimInstall func(e *sched.Exec)
+var c11ShimUninstall func()
+
 type c11Case struct {
-	Kind    string // sched | race
+	Kind    string // sched | shim | race
 	Threads []c11Thread
 	Bound   int `json:",omitempty"`
 	Reps    int `json:",omitempty"`
@@ -55,6 +58,18 @@ func c11Enumerate(tier string, seed int64, emit func(string, any)) {
 				emit("sched/2 VMs bound 2", c11Case{Kind: "sched", Threads: []c11Thread{c11Pool[i], c11Pool[j]}, Bound: 2})
 			}
 			emit("race/2 VMs", c11Case{Kind: "race", Threads: []c11Thread{c11Pool[i], c11Pool[j]}, Reps: 8})
+		}
+	}
+	// shared built-in tables at mutex / atomic granularity (needs the overlay build): programs that look methods up
+	var meth []c11Thread
+	for _, t := range c11Pool {
+		if regexp.MustCompile(`\.(sum|kh|keys|len|push|pop|shuffle|rand|randSize)\(|dir\(| k[hl]`).MatchString(t.Src) {
+			meth = append(meth, t)
+		}
+	}
+	for _, a := range meth {
+		for _, b := range meth {
+			emit("shim/2 VMs at ValueMap granularity", c11Case{Kind: "shim", Threads: []c11Thread{a, b}, Bound: 1})
 		}
 	}
 	m := 8
@@ -119,6 +134,7 @@ func c11Run(raw json.RawMessage) harn.Result {
 			res.Violations = append(res.Violations, harn.Violation{Signature: sig, What: fmt.Sprintf("threads %+v: %s", c.Threads, what)})
 		}
 	}
+	ds.VerifResetBuiltinTables() // a previous case may have left the shared tables damaged (that is what a violation looks like)
 	iso := make([]c11Obs, len(c.Threads))
 	for i, t := range c.Threads {
 		ds.VerifSeedGlobal(uint64(7 + i))
@@ -148,10 +164,17 @@ func c11Run(raw json.RawMessage) harn.Result {
 		}
 	}
 	switch c.Kind {
-	case "sched":
+	case "sched", "shim":
+		if c.Kind == "shim" && c11ShimInstall == nil {
+			viol("MACHINERY:no-shim", "binary built without the sync-shim overlay")
+			return res
+		}
 		got := make([]c11Obs, len(c.Threads))
 		mk := func() []func() {
 			ds.VerifSeedGlobal(7)
+			if c.Kind == "shim" {
+				ds.VerifResetBuiltinTables() // every execution starts from the tables' start-up (unpromoted) state
+			}
 			var bodies []func()
 			for i := range c.Threads {
 				i := i
@@ -162,8 +185,16 @@ func c11Run(raw json.RawMessage) harn.Result {
 		install := func(e *sched.Exec) {
 			ds.VerifSharedHook = func(name string, write bool) { e.Point("shared:" + name) }
 			ds.VerifStepHook = func(ctx *ds.Context, pc, top, bd, fd, dd, nd int) { e.Point("step") }
+			if c.Kind == "shim" {
+				c11ShimInstall(e)
+			}
 		}
-		uninstall := func() { ds.VerifSharedHook, ds.VerifStepHook = nil, nil }
+		uninstall := func() {
+			ds.VerifSharedHook, ds.VerifStepHook = nil, nil
+			if c.Kind == "shim" {
+				c11ShimUninstall()
+			}
+		}
 		st := sched.Explore(c.Bound, 600, mk, install, uninstall, func(e *sched.Exec) {
 			if len(res.Violations) > 0 {
 				return
@@ -243,7 +274,7 @@ func diceInRange(src, ret string) string {
 func init() {
 	harn.Register(&harn.Check{
 		ID:   "C11",
-		Rule: "sched strata: for every ordered pair (and a family of triples) of thread bodies from a 40-program pool chosen to collide (unseeded dice on the shared generator, seeded dice, shared native function objects and bound-method cloning, syntax errors under different languages, DefaultDiceSideExpr, computed values, functions, templates, st), each on its OWN VM, every schedule with <= 1 (a fifth: 2) preemptions at every instruction boundary of every sub-VM (VerifStep), every hooked access to package-level state (VerifShared) and the Parse entry/run points is executed; each seeded or dice-free VM must return exactly the value, error text and detail text of its isolated run; unseeded VMs the same shape, error text and in-range dice. race strata: the same thread bodies for every ordered pair (and triples) run free on real goroutines behind a start barrier, 8 (4) repetitions, in a -race build; any data-race report kills the worker and is attributed to the pair. Distinct by thread list; all non-trivial (two or more VMs).",
+		Rule: "shim stratum: for every ordered pair of the method-using programs, additionally every mutex / atomic operation inside ValueMap is a scheduling point (sync-shim overlay build) and the shared built-in method tables are put back into their start-up state before every execution, preemption bound 1. sched strata: for every ordered pair (and a family of triples) of thread bodies from a 40-program pool chosen to collide (unseeded dice on the shared generator, seeded dice, shared native function objects and bound-method cloning, syntax errors under different languages, DefaultDiceSideExpr, computed values, functions, templates, st), each on its OWN VM, every schedule with <= 1 (a fifth: 2) preemptions at every instruction boundary of every sub-VM (VerifStep), every hooked access to package-level state (VerifShared) and the Parse entry/run points is executed; each seeded or dice-free VM must return exactly the value, error text and detail text of its isolated run; unseeded VMs the same shape, error text and in-range dice. race strata: the same thread bodies for every ordered pair (and triples) run free on real goroutines behind a start barrier, 8 (4) repetitions, in a -race build; any data-race report kills the worker and is attributed to the pair. Distinct by thread list; all non-trivial (two or more VMs).",
 		Assume: []string{"interleavings are explored at instruction-boundary / hooked-access granularity under sequential consistency; accesses inside one VM instruction are the race detector's business", "the race pass is a detector run over a complete pair set, not a schedule enumeration"},
 		Enumerate:   c11Enumerate,
 		Run:         c11Run,
@@ -251,6 +282,7 @@ func init() {
 		Budget:      map[string]time.Duration{"quick": 170 * time.Second, "thorough": 40 * time.Minute},
 		Phases: []harn.Phase{
 			{Only: "sched/"},
+			{Only: "shim/", Exe: "check-sched"},
 			{Only: "race/", Exe: "check-race", Procs: 4, NoRlimit: true, Env: []string{"GORACE=halt_on_error=1 exitcode=66"}},
 		},
 	})
